@@ -210,6 +210,7 @@ func c08Run(r *core.Run) {
 			cat = append(cat, e)
 		}
 	}
+	baseN := len(c08Catalogue(p)) // entries beyond this index come from the C01 shape catalogue (thorough only)
 	n := len(cat)
 	r.Bounds["catalogue"] = n
 	r.Bounds["history"] = "0..2 registered routes + 1 candidate (all ordered combinations)"
@@ -252,6 +253,9 @@ func c08Run(r *core.Run) {
 			}
 			if !r.Thorough() && ii > 0 && (ii%3 != 0) {
 				continue
+			}
+			if ii > 0 && (i >= baseN || j >= baseN) {
+				continue // two-route prefixes are drawn from the hand-written catalogue only
 			}
 			tree, trie := route.NewTree(), ref.NewTrie()
 			var hist []string
